@@ -12,8 +12,11 @@ import (
 const pHTTP2 = "golang.org/x/net/http2"
 
 func init() {
-	props["C08"] = c08
-	floors["C08"] = map[string]int{"C08.R1": 10, "C08.R2": 29, "C08.R3": 2, "C08.R4": 20, "C08.R5": 10, "C08.R6": 2, "C08.R7": 1, "C08.R8": 16}
+	props["C08"] = func(r *Report) {
+		c08(r)
+		r.Guard("C08.R9", "every lock taken is released on every exit: the relay's mutexes", func() { lockPairRule(r, "h2") })
+	}
+	floors["C08"] = map[string]int{"C08.R1": 10, "C08.R2": 29, "C08.R3": 2, "C08.R4": 20, "C08.R5": 10, "C08.R6": 2, "C08.R7": 1, "C08.R8": 16, "C08.R9": 1}
 }
 
 // frameCases maps each asserted frame type name in the dispatcher to the
